@@ -14,7 +14,8 @@ vars == <<file, shapes, mut, origc, done>>
 \* payload library: (LZMA2 bytes, decoded bytes) of the payloads the harness serialises (d_xz.rs
 \* payload_lib); the harness refuses to run (tool error) if its library disagrees
 LibDef == << [plen |-> 5, ulen |-> 1], [plen |-> 6, ulen |-> 2], [plen |-> 7, ulen |-> 3], [plen |-> 8, ulen |-> 4],
-             [plen |-> 1, ulen |-> 0], [plen |-> 12, ulen |-> 5], [plen |-> 16, ulen |-> 8], [plen |-> 24, ulen |-> 303] >>
+             [plen |-> 1, ulen |-> 0], [plen |-> 12, ulen |-> 5], [plen |-> 16, ulen |-> 8], [plen |-> 24, ulen |-> 303],
+             [plen |-> 20004, ulen |-> 20000] >>
 
 \* header sizes: minimal, +4, and two sizes whose stored size byte is >= 0x40 (260..1024 bytes: legal, only extra padding)
 BlockShapes == {[pid |-> p, hsize |-> MinHdr(hp, hu, Lib[p].plen, Lib[p].ulen) + extra, hasP |-> hp, hasU |-> hu] :
